@@ -144,7 +144,7 @@ func (v Val) MarshalJSON() ([]byte, error) {
 	if v.hasFamilies() || v.Kind == "ServiceFamily" {
 		m["families"] = v.Fams
 	}
-	if v.Kind == "DescriptionRes" && len(v.Blocks) > 0 {
+	if (v.Kind == "DescriptionRes" || v.Kind == "SearchRes") && len(v.Blocks) > 0 {
 		m["blocks"] = v.Blocks
 	}
 	return json.Marshal(m)
@@ -295,7 +295,7 @@ func (v *Val) service() knxnet.ServicePackable {
 	case "DescriptionReq":
 		return &knxnet.DescriptionReq{HostInfo: host(v.H1)}
 	case "SearchRes":
-		return &knxnet.SearchRes{Control: host(v.H1), DescriptionB: knxnet.DescriptionBlock{DeviceHardware: v.device(), SupportedServices: v.families()}}
+		return &knxnet.SearchRes{Control: host(v.H1), DescriptionB: knxnet.DescriptionBlock{DeviceHardware: v.device(), SupportedServices: v.families(), UnknownBlocks: v.blocks()}}
 	case "DescriptionRes":
 		return &knxnet.DescriptionRes{DeviceHardware: v.device(), SupportedServices: v.families(), UnknownBlocks: v.blocks()}
 	case "ConnReq":
@@ -447,6 +447,9 @@ func (v *Val) domainC02() (bool, string) {
 		if hasTrailingNUL(v.Name) {
 			return false, "name-with-trailing-NUL"
 		}
+	}
+	if v.Kind == "SearchRes" && len(v.Blocks) > 0 {
+		return false, "further-DIBs-of-a-search-response-have-no-encoder"
 	}
 	for _, b := range v.Blocks {
 		// the decoder keeps further blocks of the types 3, 4, 5 and 0xFE that carry data
@@ -754,7 +757,7 @@ func (v *Val) goExpr() string {
 	case "SearchReq", "DescriptionReq":
 		return fmt.Sprintf("&knxnet.%s{HostInfo: %s}", v.Kind, goHost(v.H1))
 	case "SearchRes":
-		return fmt.Sprintf("&knxnet.SearchRes{Control: %s, DescriptionB: knxnet.DescriptionBlock{DeviceHardware: %s, SupportedServices: %s}}", goHost(v.H1), v.goDevice(), v.goFamilies())
+		return fmt.Sprintf("&knxnet.SearchRes{Control: %s, DescriptionB: knxnet.DescriptionBlock{DeviceHardware: %s, SupportedServices: %s%s}}", goHost(v.H1), v.goDevice(), v.goFamilies(), v.goBlocks())
 	case "DescriptionRes":
 		return fmt.Sprintf("&knxnet.DescriptionRes{DeviceHardware: %s, SupportedServices: %s%s}", v.goDevice(), v.goFamilies(), v.goBlocks())
 	case "ConnReq":
